@@ -4,6 +4,7 @@ CONSTANTS
   R1s = {1, 2}
   R2s = {1, 3}
   Offs = {0}
+  ExtraFK = {}
 INIT Init
 NEXT Next
 CHECK_DEADLOCK FALSE
